@@ -74,8 +74,10 @@ def check(ctx, run):
     run.rule("R5", "bit operands: StringFromMaskedBits (the operand rendering of BITS_EQUAL failures) folded over byte counts 0..9 and 16 x value/mask patterns against the reference rendering; an undefined shift on the way is a violation; printable() text folded for every byte value and byte pairs (each byte itself, its short escape or the hex escape of its own value)", floor=2, exhaustive=True)
     masked_bits_rule(prog, run, "R5", thorough=ctx.thorough)
     # string operands are shown through printable(): its text folded for every byte value (shared with C13.R3)
-    from .C13 import printable_text_rule
+    from .C13 import printable_text_rule, printable_size_rule
     printable_text_rule(prog, run, "R5")
+    # ... and into a buffer reserved by getPrintableSize(): size agreement folded for every byte value (shared with C13.R3)
+    printable_size_rule(prog, run, "R5")
     run.rule("R4", "content: expected before actual in the but-was text; string kinds render through the printable form; the reported position is the raw index and the marker offset the printable one; the padding covers half the window", floor=8)
 
     LEN = [e["v"] for en in prog.enums.values() for e in en["enumerators"] if e["name"] == "SIMPLE_STRING_BUFFER_LEN"]
